@@ -109,6 +109,10 @@ func c03Gen(r *kit.Rand, idx int, tiny []byte) c03Case {
 				ver.Layers = append(ver.Layers, mk(m, kit.Pick(r, []int{0, 1, 37, 4096, 65536, 300000})))
 			}
 		}
+		if r.Chance(1, 5) && len(ver.Layers) > 1 {
+			// the same blob listed twice in one manifest (e.g. two identical license layers) is legitimate
+			ver.Layers = append(ver.Layers, ver.Layers[r.Range(1, len(ver.Layers)-1)])
+		}
 		if big && v == 0 {
 			b := r.Bytes(200_000_000 + r.Intn(30_000_000))
 			ver.Layers = append(ver.Layers, c03Layer{Media: "application/vnd.ollama.image.license", Size: len(b), data: b})
@@ -164,6 +168,11 @@ func c03Gen(r *kit.Rand, idx int, tiny []byte) c03Case {
 		}
 		if at.Stream && r.Chance(1, 6) {
 			at.Disconnect = r.Range(1, 6)
+		}
+		if r.Chance(1, 8) {
+			// every CDN response of this attempt is damaged (a broken cache in front of the CDN)
+			at.Faults = []Fault{{Kind: "cdn", Nth: 0, Act: "flip", Arg: int64(r.Intn(700))}}
+			at.Resume = nil
 		}
 		if r.Chance(1, 7) {
 			// "corrupt, then abandon": an early layer arrives complete but damaged, a later CDN response
